@@ -218,13 +218,13 @@ theorem addInPlace_sim {dS dC : Dict (σ × τ) Addr} {hS hC : Store σ}
       · obtain ⟨h1, h2, h3⟩ := hb e he
         have hne : e.2 ≠ hS.length := Nat.ne_of_lt h1
         simp only [hne, if_false]
-        refine ⟨by omega, by omega, ?_⟩
+        refine ⟨Nat.lt_succ_of_lt h1, Nat.lt_succ_of_lt h2, ?_⟩
         rw [read_append_lt hC _ h2, read_append_lt hS _ h1]
         exact h3
       · simp only [List.mem_singleton] at he
         subst he
         simp only [if_true]
-        refine ⟨by omega, by omega, ?_⟩
+        refine ⟨Nat.lt_succ_self _, Nat.lt_succ_self _, ?_⟩
         rw [read_append_length, read_append_length]
     · intro e e' he he'
       rcases List.mem_append.mp he with he | he <;> rcases List.mem_append.mp he' with he' | he'
@@ -313,31 +313,31 @@ theorem copyDelta_aux_sim (h : Store σ) (d pre : Dict (σ × τ) Addr)
         rcases List.mem_append.mp he' with he' | he'
         · obtain ⟨h1, h2, h3⟩ := hb e' he'
           simp only [hfresh e' he', if_false]
-          refine ⟨h1, by omega, ?_⟩
+          refine ⟨h1, Nat.lt_succ_of_lt h2, ?_⟩
           rw [read_append_lt hA _ h2]
           exact h3
         · simp only [List.mem_singleton] at he'
           subst he'
           simp only [if_true]
-          refine ⟨he_lt, by omega, ?_⟩
+          refine ⟨he_lt, Nat.lt_succ_self _, ?_⟩
           rw [read_append_length]
           exact hf.2 _ he_lt
       · intro e1 e2 he1 he2
-        rcases List.mem_append.mp he1 with he1 | he1 <;> rcases List.mem_append.mp he2 with he2 | he2
-        · simp only [hfresh e1 he1, hfresh e2 he2, if_false]
-          exact hinj e1 e2 he1 he2
-        · simp only [List.mem_singleton] at he2
-          subst he2
-          simp only [hfresh e1 he1, if_false, if_true]
+        rcases List.mem_append.mp he1 with m1 | m1 <;> rcases List.mem_append.mp he2 with m2 | m2
+        · simp only [hfresh e1 m1, hfresh e2 m2, if_false]
+          exact hinj e1 e2 m1 m2
+        · simp only [List.mem_singleton] at m2
+          rw [m2]
+          simp only [hfresh e1 m1, if_false, if_true]
           intro h'
-          exact absurd h' (Nat.ne_of_lt (hb e1 he1).2.1)
-        · simp only [List.mem_singleton] at he1
-          subst he1
-          simp only [hfresh e2 he2, if_false, if_true]
+          exact absurd h' (Nat.ne_of_lt (hb e1 m1).2.1)
+        · simp only [List.mem_singleton] at m1
+          rw [m1]
+          simp only [hfresh e2 m2, if_false, if_true]
           intro h'
-          exact absurd h'.symm (Nat.ne_of_lt (hb e2 he2).2.1)
-        · simp only [List.mem_singleton] at he1 he2
-          subst he1 he2
+          exact absurd h'.symm (Nat.ne_of_lt (hb e2 m2).2.1)
+        · simp only [List.mem_singleton] at m1 m2
+          rw [m1, m2]
           intro _; rfl
 
 theorem copyDelta_sim (d : Dict (σ × τ) Addr) (h : Store σ)
@@ -382,4 +382,25 @@ theorem repetition_same_result_noalias (N : HNFA σ τ) (h : Store σ) (q0 : σ)
       rw [read_append_lt pC.2 _ h2, read_append_lt pS.2 _ h1, h3]
 
 end Heap
+
+/-! ### PART B: two Nerode partitions of the same DFA have the same blocks -/
+
+set_option linter.unusedSectionVars false in
+theorem DFA.IsNerode.block_corr {σ τ : Type} [DecidableEq σ] [DecidableEq τ] {D : DFA σ τ}
+    {P P' : List (List σ)} (hN : D.IsNerode P) (hN' : D.IsNerode P') :
+    ∀ B, B ∈ P → ∃ B', B' ∈ P' ∧ ∀ q, q ∈ B ↔ q ∈ B' := by
+  intro B hB
+  obtain ⟨p, hp⟩ := List.exists_mem_of_ne_nil B (hN.1.nonempty B hB)
+  have hpQ : p ∈ D.Q := hN.1.sub B hB p hp
+  obtain ⟨B', hB', hp'⟩ := hN'.1.cover p hpQ
+  refine ⟨B', hB', fun q => ⟨fun hq => ?_, fun hq => ?_⟩⟩
+  · have he : D.Equiv p q := hN.equiv_of_mem hB hp hq
+    obtain ⟨C', hC', hq'⟩ := hN'.1.cover q (hN.1.sub B hB q hq)
+    have : B' = C' := (hN'.2 B' C' hB' hC' p q hp' hq').mpr he
+    rw [this]; exact hq'
+  · have he : D.Equiv p q := hN'.equiv_of_mem hB' hp' hq
+    obtain ⟨C, hC, hqC⟩ := hN.1.cover q (hN'.1.sub B' hB' q hq)
+    have : B = C := (hN.2 B C hB hC p q hp hqC).mpr he
+    rw [this]; exact hqC
+
 end Gamba
